@@ -206,7 +206,8 @@ func c08Run(c *core.Ctx) {
 	}
 
 	// --- depth axis
-	depths := []int{1, 2, 100, 4095, 4096}
+	// 127..130: around the parser's 128-entry path bookkeeping
+	depths := []int{1, 2, 100, 127, 128, 129, 130, 200, 4095, 4096}
 	shapes := []struct {
 		name        string
 		open, close string
@@ -217,6 +218,9 @@ func c08Run(c *core.Ctx) {
 		{"alternating", `[{"k":`, "}]", `"v"`},
 		{"arrays-empty", "[", "]", ""},
 		{"spaced", " [ ", " ] ", " 1 "},
+		// the innermost object has several members, and every level a sibling
+		{"objects-two-members-inside", `{"k":`, "}", `{"a":1,"b":[2],"c":{"d":null}}`},
+		{"objects-with-trailing-sibling", `{"k":`, `,"z":0}`, `{"a":1,"b":2}`},
 	}
 	for _, sh := range shapes {
 		for _, d := range depths {
@@ -227,6 +231,11 @@ func c08Run(c *core.Ctx) {
 			n := d / per
 			if n == 0 {
 				continue
+			}
+			if strings.HasPrefix(sh.name, "objects-two") || strings.HasPrefix(sh.name, "objects-with") {
+				if d > 1000 {
+					continue // their innermost value nests further: stay well inside the cap
+				}
 			}
 			if !c.Next() || c.Expired() {
 				continue
